@@ -96,7 +96,8 @@ class Scheduler:
         return self.results
 
 
-def make_race(prog, max_preempt, break_lock=False):
+def make_race(prog, max_preempt, break_lock=False, delete_latest=False):
+    """delete_latest: the archive holds two versions and the collector deletes the newer one (the backup's basis) while the backup runs."""
     delete_bands = A.fn_by(prog, 'Archive', None, 'delete_bands')
 
     def mk_():
@@ -112,15 +113,26 @@ def make_race(prog, max_preempt, break_lock=False):
             A.put_hunk(ex, st, 0, 0, [A.mk_entry(ex, '/', 'Dir', 1, mode=0o755),
                                        A.mk_entry(ex, '/a', 'File', 10, addrs=[A.mk_addr(ex, ha, 0, sa)], mode=0o644)])
             A.put_tail(ex, st, 0, 1)
+            files = [B.SrcFile('/', 'Dir', mtime=B.TimeV(1, 0), mode=0o755),
+                     B.SrcFile('/a', 'File', cls=1, size=sa, mtime=B.TimeV(10, 0), mode=0o644)]
+            ids = VecV([])
+            if delete_latest:
+                sc_ = ex.fresh_int('size_c', 1, 1 << 16)
+                hc = A.put_block(ex, st, Data([(3, 0, sc_)]))
+                A.put_head(ex, st, 1)
+                A.put_hunk(ex, st, 1, 0, [A.mk_entry(ex, '/', 'Dir', 1, mode=0o755),
+                                           A.mk_entry(ex, '/a', 'File', 10, addrs=[A.mk_addr(ex, ha, 0, sa)], mode=0o644),
+                                           A.mk_entry(ex, '/c', 'File', 12, addrs=[A.mk_addr(ex, hc, 0, sc_)], mode=0o644)])
+                A.put_tail(ex, st, 1, 1)
+                files.append(B.SrcFile('/c', 'File', cls=3, size=sc_, mtime=B.TimeV(12, 0), mode=0o644))
+                ids = VecV([Agg('bandid::BandId', None, [1])])
             st.mode = 'run'
-            tree = B.SourceTreeV([B.SrcFile('/', 'Dir', mtime=B.TimeV(1, 0), mode=0o755),
-                                  B.SrcFile('/a', 'File', cls=1, size=sa, mtime=B.TimeV(10, 0), mode=0o644),
-                                  B.SrcFile('/g', 'File', cls=7, size=sg, mtime=B.TimeV(11, 0), mode=0o644)])
+            files.append(B.SrcFile('/g', 'File', cls=7, size=sg, mtime=B.TimeV(11, 0), mode=0o644))
+            tree = B.SourceTreeV(files)
             B.install_time(ex)
             B.install_source(ex, tree)
             opts = B.backup_options(ex, 1000, 1 << 20, 0, True)
             dopts = mk(ex, 'archive::DeleteOptions', dry_run=False, break_lock=break_lock)
-            ids = VecV([])
             sched = Scheduler(ex, st, ['backup', 'gc'], max_preempt)
             st.scheduler = sched
             backup_fn = ex.find_fn('backup::backup')
@@ -130,11 +142,13 @@ def make_race(prog, max_preempt, break_lock=False):
                 return 'Ok' if r.variant == 0 else 'Err:' + variant_name(ex, r.fields[0])
 
             def run_g():
-                r = A.run_async(ex, delete_bands, [Ref([ar], 0), M.Slice(ids.items, 0, 0), Ref([dopts], 0), A.monitor_arc(ex)])
+                r = A.run_async(ex, delete_bands, [Ref([ar], 0), M.Slice(ids.items, 0, len(ids.items)), Ref([dopts], 0), A.monitor_arc(ex)])
                 return 'Ok' if r.variant == 0 else 'Err:' + variant_name(ex, r.fields[0])
             first = 'backup' if ex.branch(ex.fresh_bool('backup_first'), 'who starts?') else 'gc'
             results = sched.run({'backup': run_b, 'gc': run_g}, first)
             problems = []
+            lost = set()
+            ex.env['lost'] = lost
             srcs = {0: None, 1: {f.path: f for f in tree.files}}
             bands, blocks = B.decode_bands(ex, st)
             for b, info in sorted(bands.items()):
@@ -146,6 +160,7 @@ def make_race(prog, max_preempt, break_lock=False):
                         for a_ in ef['addrs']:
                             hh = env.field(ex, a_, 'blockdir::Address', 'hash')
                             if hh.name not in blocks:
+                                lost.add(hh.name)
                                 problems.append('complete version b%04d: %s refers to block %s which the collector removed' % (b, ef['apath'], hh))
             return problems, results, sched.trace, first
 
@@ -157,7 +172,7 @@ def make_race(prog, max_preempt, break_lock=False):
                 return
             problems, results, trace, first = out[1]
             if problems:
-                key = classify(trace)
+                key = classify(trace, ex.env.get('lost'))
                 if key not in [b['key'] for b in res['bad']]:
                     res['bad'].append({'kind': 'lost-block', 'key': key, 'problems': problems[:3], 'results': results, 'first': first,
                                        'schedule': [(a, v, p) for a, v, p in trace], 'model': B.model_values(ex.E.check()[1])})
@@ -167,15 +182,16 @@ def make_race(prog, max_preempt, break_lock=False):
     return mk_
 
 
-def classify(trace):
-    """Role of a losing schedule, from the order of the four events the interlock is about."""
+def classify(trace, lost=None):
+    """Role of a losing schedule, from the order of the four events the interlock is about (the removal that counts is the
+    removal of a block the broken version refers to)."""
     def idx(pred, last=False):
         hits = [i for i, t in enumerate(trace) if pred(t)]
         return (hits[-1] if last else hits[0]) if hits else None
     lock_check = idx(lambda t: t[0] == 'backup' and t[1] == 'metadata' and t[2] == 'GC_LOCK')
     lock_write = idx(lambda t: t[0] == 'gc' and t[1] == 'write' and t[2] == 'GC_LOCK')
     band_create = idx(lambda t: t[0] == 'backup' and t[1] == 'create_dir' and t[2].startswith('b') and '/' not in t[2])
-    gc_remove = idx(lambda t: t[0] == 'gc' and t[1] == 'remove_file' and t[2].startswith('d/'))
+    gc_remove = idx(lambda t: t[0] == 'gc' and t[1] == 'remove_file' and t[2].startswith('d/') and (not lost or t[2].rsplit('/', 1)[1] in lost))
     gc_check = idx(lambda t: t[0] == 'gc' and t[1] == 'list_dir' and t[2] == '' and (gc_remove is None or trace.index(t) < gc_remove), last=True)
     # recompute gc_check as the last root listing by gc before its first block removal
     hits = [i for i, t in enumerate(trace) if t[0] == 'gc' and t[1] == 'list_dir' and t[2] == '' and (gc_remove is None or i < gc_remove)]
